@@ -79,7 +79,9 @@ def run(model, tier="quick"):
                   "per-token accrual uses each token's own volume and decimals", [], opaque=["from_atomic_unit"])
     nu = [r for r in C06.REFS if r[0].endswith("nearest_usable_tick")][0]
     formula_check(res, model, nu[0], nu[1], "tick trimming is round-half-even of tick/spacing (symmetric under negation)")
-    res.floor("obligations", len(res.obligations), 24)
+    from .base_refs import swap_sizing
+    swap_sizing(res, model)      # the value algebra add_liquidity_by_value feeds with orientation-mapped values
+    res.floor("obligations", len(res.obligations), 27)
     res.assumptions = ["the reference model in sa/props/uni_refs.py is orientation-symmetric by inspection (each arm pair is a mirror image)"]
     res.not_decided = ["the 1e-12 / 0.1% numerical agreement between mirrored runs (floating point / Decimal)",
                        "a mechanical mirror-duality proof of the reference itself"]
